@@ -1,7 +1,9 @@
-(* Props/C07Ext.v -- property C07, extension: the gaps (a) and (e) listed before
-   C07_decode_partial in Props/C07.v are closed, and dump_as_parsed is proved.
-   Statements only; proofs in Proofs/DecodeSpec.v, Proofs/DecodeDumpSpec.v and
-   Proofs/DecodeRoundSpec.v.
+(* Props/C07Ext.v -- property C07, extension: the gaps (a), (b) and (e) listed
+   before C07_decode_partial in Props/C07.v are closed, (c) and (d) are shown as
+   facts of the model, dump_as_parsed is proved for full points, and the
+   truncated forms are decoded to their explicit truncated point.
+   Statements only; proofs in Proofs/DecodeSpec.v, Proofs/DecodeDumpSpec.v,
+   Proofs/DecodeRoundSpec.v and Proofs/DecodeTruncSpec.v.
 
    Vocabulary (Proofs/DecodeSpec.v, section 0; everything is a closed-form
    function of a form's token list ts and an assignment a of field texts):
@@ -34,11 +36,15 @@
    that year in mode md; day of year within the year; week within the ISO
    week-year's weeks and weekday 1..7; hour 0..24 with 24 only as 24:00(:00);
    minute and second (with their fraction) in [0,60); zone hours -99..99, zone
-   minutes -59..59 with the sign of the hours.  A boolean. *)
+   minutes -59..59 with the sign of the hours.  A boolean.
+   pstr md cfg s (Proofs/DecodeTruncSpec.v, section 5) = parse s with
+   dump_as_parsed, then write the point out with its own dump format (str());
+   inb f L = f occurs in the list L; F_... = forms picked from the tables by
+   format key and expression text. *)
 From Coq Require Import ZArith QArith List Bool String Ascii.
 From Iso Require Import Spec.Cal Spec.Instant Model.Num Model.Helpers Model.Duration Model.TimePoint
   Model.Forms Model.Parse Model.Dump Spec.FormText Proofs.MatchSpec gen.Grammar Model.DriverText
-  Proofs.RoundTripSpec Proofs.DecodeSpec Proofs.DecodeDumpSpec Proofs.DecodeRoundSpec.
+  Proofs.RoundTripSpec Proofs.DecodeSpec Proofs.DecodeDumpSpec Proofs.DecodeRoundSpec Proofs.DecodeTruncSpec.
 Import ListNotations.
 Local Open Scope string_scope.
 
@@ -112,12 +118,6 @@ Theorem C07_decode_date_full : forall md cfg fd ad asp,
   if valid_tp md q then POk (ptp_of q (x_ned cfg (f_parse fd)) (if asp then f_expr fd else "")) else PErr EBadInput.
 Proof. exact decode_date_full. Qed.
 Print Assumptions C07_decode_date_full.
-
-(* parse with dump_as_parsed, then str() *)
-Definition pstr (md : mode) (cfg : pcfg) (s : string) : option dres :=
-  match parse_text md cfg s true with
-  | POk p => match ptp_to_tp p with Some q => Some (do_dump md (p_ned p) q (p_fmt p)) | None => None end
-  | PErr _ => None end.
 
 (* 3. DUMP_AS_PARSED.  Under the hypotheses of C07_decode_full and validity of
       the assigned values: the parser returns a point p whose dump format is the
@@ -209,6 +209,129 @@ Theorem C07_decimal_string : forall n f, (0 <= n)%Z -> digits_plus f = true -> f
 Proof. exact decimal_string_frac. Qed.
 Print Assumptions C07_decimal_string.
 
+(* 4. TRUNCATED FORMS (allow_truncated).  t_point cfg dt tt zo ad atm az fmt is the
+      explicit truncated point: year = the year-of-century or year-of-decade
+      digits if the form has them (truncated property accordingly), else absent;
+      month / day of month / day of year / week / weekday = the numbers of the
+      groups the form has, absent otherwise (NOTHING is defaulted); hour,
+      minute, second likewise, each with its decimal fraction; zone = the
+      written offset, or the assumed / local offset of the configuration, or
+      unknown (None) when the parser defaults to unknown; truncated flag set; 0
+      expanded digits; dump format fmt.  It is returned exactly when the
+      constructor's range check accepts it (check_bounds of Model/Parse.v with
+      the year possibly absent: month 1..12, day within the month -- of the leap
+      year when no year is given --, week 1..max_weeks_in_year, day of year,
+      weekday 1..7, hour/minute/second as for full points) and the zone is in
+      range.  Every truncated date form searched before "T", every time form
+      (truncated or not) and zone the rules then allow; C07_decode_trunc_nozone
+      closes GAP (b): a truncated time with no zone (the leading "-" of the
+      time goes through the parser's rsplit("-") heuristic, which is shown to
+      fall back to "no zone" because neither "" nor "-" is a time).
+      NOT covered: the empty truncated date ("T-30"); writing a truncated point
+      back (Model/Dump.v models the dumper on full points only). *)
+Theorem C07_decode_trunc : forall md cfg fd gd ft zo ad atm az (asp : bool),
+  In (c_ned cfg) [0; 2; 3]%Z ->
+  let dfs := date_forms_of (c_ned cfg) in
+  In fd (date_search dfs cfg ["reduced"]) -> f_type fd = "truncated" ->
+  hit (date_search dfs cfg ["reduced"]) fd = Some gd ->
+  let bf := bad_formats_of (f_format gd) (f_type gd) in
+  In ft (time_search TIME_FORMS cfg bf (trunc_types fd)) ->
+  In zo (zone_choices cfg bf ft) ->
+  wf_assign (f_parse fd) ad = true -> wf_assign (f_parse ft) atm = true -> zo_wf zo az = true ->
+  let p := t_point cfg (f_parse fd) (f_parse ft) zo ad atm az
+                   (if asp then f_expr fd ++ "T" ++ f_expr ft ++ zo_expr zo else "") in
+  parse_text md cfg (render_toks (f_parse fd) ad ++ "T" ++ render_toks (f_parse ft) atm ++ zo_text zo az) asp =
+  if t_zone_ok (t_zone cfg zo az) && check_bounds md p then POk p else PErr EBadInput.
+Proof. exact decode_trunc. Qed.
+Print Assumptions C07_decode_trunc.
+
+Theorem C07_decode_trunc_nozone : forall md cfg fd gd ft ad atm (asp : bool),
+  In (c_ned cfg) [0; 2; 3]%Z ->
+  let dfs := date_forms_of (c_ned cfg) in
+  In fd (date_search dfs cfg ["reduced"]) -> f_type fd = "truncated" ->
+  hit (date_search dfs cfg ["reduced"]) fd = Some gd ->
+  let bf := bad_formats_of (f_format gd) (f_type gd) in
+  In ft (time_search TIME_FORMS cfg bf (trunc_types fd)) -> f_type ft = "truncated" ->
+  wf_assign (f_parse fd) ad = true -> wf_assign (f_parse ft) atm = true ->
+  let p := t_point cfg (f_parse fd) (f_parse ft) None ad atm [] (if asp then f_expr fd ++ "T" ++ f_expr ft else "") in
+  parse_text md cfg (render_toks (f_parse fd) ad ++ "T" ++ render_toks (f_parse ft) atm) asp =
+  if t_zone_ok (t_zone cfg None []) && check_bounds md p then POk p else PErr EBadInput.
+Proof. exact decode_trunc_nozone. Qed.
+Print Assumptions C07_decode_trunc_nozone.
+
+Theorem C07_decode_trunc_date : forall md cfg fd ad (asp : bool),
+  In (c_ned cfg) [0; 2; 3]%Z ->
+  let dfs := date_forms_of (c_ned cfg) in
+  In fd (date_search dfs cfg []) -> f_type fd = "truncated" ->
+  mem (f_expr fd) (date_exceptions (c_ned cfg) (c_trunc cfg) []) = false ->
+  wf_assign (f_parse fd) ad = true ->
+  let p := t_point cfg (f_parse fd) [] None ad [] [] (if asp then f_expr fd else "") in
+  parse_text md cfg (render_toks (f_parse fd) ad) asp =
+  if t_zone_ok (t_zone cfg None []) && check_bounds md p then POk p else PErr EBadInput.
+Proof. exact decode_trunc_date. Qed.
+Print Assumptions C07_decode_trunc_date.
+
+(* the constructor call for ANY token lists of the truncated-date / any-time
+   shapes, and the tables have those shapes *)
+Theorem C07_constructor_call_trunc : forall md cfg dt tt ad atm zn fmt,
+  trunc_date_shape dt = true -> wf_assign dt ad = true ->
+  (time_any_shape tt = true /\ wf_assign tt atm = true) ->
+  point_num md cfg (bindings dt ad) (bindings tt atm) zn fmt false =
+  let p := mkPtp (t_year dt ad) (fnum "month_of_year" dt ad) (fnum "day_of_month" dt ad) (fnum "day_of_year" dt ad)
+                 (fnum "week_of_year" dt ad) (fnum "day_of_week" dt ad)
+                 (t_unit "hour_of_day" "hour_of_day_decimal" tt atm)
+                 (t_unit "minute_of_hour" "minute_of_hour_decimal" tt atm)
+                 (t_unit "second_of_minute" "second_of_minute_decimal" tt atm)
+                 (zone_opt zn) true (t_prop dt) 0 fmt in
+  if t_zone_ok (zone_opt zn) && check_bounds md p then POk p else PErr EBadInput.
+Proof. exact point_num_trunc. Qed.
+Print Assumptions C07_constructor_call_trunc.
+Theorem C07_trunc_shapes :
+  (forallb (fun f => not_trunc f || trunc_date_shape (f_parse f)) (DATE_FORMS_0 ++ DATE_FORMS_2 ++ DATE_FORMS_3)%list = true /\
+   forallb (fun f => time_any_shape (f_parse f)) TIME_FORMS = true) /\
+  (forallb (fun f => not_trunc f || trunc_time_lead (f_parse f)) TIME_FORMS = true /\
+   forallb (fun f => match pmatch (f_parse f) "" [] with None => true | Some _ => false end &&
+                     match pmatch (f_parse f) "-" [] with None => true | Some _ => false end) TIME_FORMS = true).
+Proof. exact (conj tables_trunc_shapes tables_trunc_times). Qed.
+Print Assumptions C07_trunc_shapes.
+
+Example C07Ext_trunc_ex :
+  let cfgu := mkCfg 2 true false None true (0, 0)%Z in      (* truncation allowed, default to unknown zone *)
+  let ad := [("month_of_year", "12"); ("day_of_month", "31")] in
+  let atm := [("minute_of_hour", "30"); ("second_of_minute", "15"); ("second_of_minute_decimal", "5")] in
+  let az := [("time_zone_sign", "+"); ("time_zone_hour", "05"); ("time_zone_minute", "30")] in
+  let L := date_search (date_forms_of 2) cfgu ["reduced"] in
+  existsb (form_eqb F_TMD_EXT) L = true /\ hit L F_TMD_EXT = Some F_TMD_EXT /\ f_type F_TMD_EXT = "truncated" /\
+  existsb (form_eqb F_TMS_EXT) (time_search TIME_FORMS cfgu (bad_formats_of "extended" "truncated") (trunc_types F_TMD_EXT)) = true /\
+  wf_assign (f_parse F_TMD_EXT) ad = true /\ wf_assign (f_parse F_TMS_EXT) atm = true /\
+  t_point cfgu (f_parse F_TMD_EXT) (f_parse F_TMS_EXT) (Some F_ZHM_EXT) ad atm az "x" =
+    mkPtp None (Some 12%Z) (Some 31%Z) None None None None (Some 30%Q) (Some (31 # 2)%Q) (Some (mkZone 5 30)) true "" 0 "x" /\
+  check_bounds G (t_point cfgu (f_parse F_TMD_EXT) (f_parse F_TMS_EXT) (Some F_ZHM_EXT) ad atm az "x") = true /\
+  parse_text G cfgu "--12-31T-30:15,5+05:30" true =
+    POk (mkPtp None (Some 12%Z) (Some 31%Z) None None None None (Some 30%Q) (Some (31 # 2)%Q) (Some (mkZone 5 30))
+               true "" 0 "--MM-DDT-mm:ss,tt+hh:mm") /\
+  (* gap (b): truncated time, no zone: unknown under this configuration, local (0,0) under the default one *)
+  parse_text G cfgu "--12-31T-30:15,5" true =
+    POk (mkPtp None (Some 12%Z) (Some 31%Z) None None None None (Some 30%Q) (Some (31 # 2)%Q) None
+               true "" 0 "--MM-DDT-mm:ss,tt") /\
+  parse_text G (cfg_of 2 true false) "-0001T-30" true =
+    POk (mkPtp (Some 0%Z) (Some 1%Z) None None None None None (Some 30%Q) None (Some (mkZone 0 0))
+               true "year_of_century" 0 "-YYMMT-mm") /\
+  (* year of century without the "truncated" group: only non-truncated times allowed; nothing defaulted *)
+  parse_text G cfgu "85-W10-7T12" true =
+    POk (mkPtp (Some 85%Z) None None None (Some 10%Z) (Some 7%Z) (Some 12%Q) None None None
+               true "year_of_century" 0 "YY-Www-DThh") /\
+  parse_text G cfgu "-5W107" true =
+    POk (mkPtp (Some 5%Z) None None None (Some 10%Z) (Some 7%Z) None None None None true "year_of_decade" 0 "-zWwwD") /\
+  parse_text G cfgu "-W-3" true =
+    POk (mkPtp None None None None None (Some 3%Z) None None None None true "" 0 "-W-D") /\
+  (* refused by the range check *)
+  parse_text G cfgu "--1331" true = PErr EBadInput /\
+  parse_text G cfgu "--0230" true = PErr EBadInput /\
+  parse_text D360 cfgu "--0230" false <> PErr EBadInput /\
+  parse_text D360 cfgu "-W53" true = PErr EBadInput.
+Proof. vm_compute. repeat split; try reflexivity; discriminate. Qed.
+
 (* the three side conditions are necessary, and the remaining gaps as facts of
    the model (all reproduced on the package, see notes/C07EXT_REPORT.md):
    (c) a sign-prefixed form under num_expanded_year_digits = 0 is MATCHED (its
@@ -239,11 +362,6 @@ Proof. vm_compute. repeat split; reflexivity. Qed.
    reduced date alone under an assumed +05:30; century alone under
    default-to-unknown; expanded negative year, ordinal, hour fraction, local
    zone -03:00 *)
-Definition inb (f : form) (L : list form) : bool := existsb (form_eqb f) L.
-Definition F_YM : form := Eval vm_compute in pick "basic" "CCYY-MM" DATE_FORMS_2.
-Definition F_CC : form := Eval vm_compute in pick "basic" "CC" DATE_FORMS_2.
-Definition F_ORDX3_BASIC : form := Eval vm_compute in pick "basic" "+XCCYYDDD" DATE_FORMS_3.
-Definition F_HD_BASIC : form := Eval vm_compute in pick "basic" "hh.ii" TIME_FORMS.
 Example C07Ext_ex :
   let cfg := mkCfg 2 false false (Some (5, 30)%Z) false (0, 0)%Z in
   let ad := [("century", "20"); ("year_of_century", "20"); ("week_of_year", "53"); ("day_of_week", "7")] in
